@@ -31,6 +31,14 @@ TRUSTED = ["Float (IEEE double, libm pow) approximates the real-valued model: th
 PKAS = [Fraction(85, 10), Fraction(101, 10), Fraction(65, 10), Fraction(41, 10), Fraction(39, 10), Fraction(10), Fraction(125, 10)]
 
 
+# (nR, nK, nH, nD) whose mean charge per titratable residue at pH 14 lies within 1e-7 of the 0.02 tolerance of the pI search, on either
+# side (enumerated once from the published pKa values): the in-tolerance part of the 0-14 window is narrower than one bisection step
+NEAR_R_DOMINATED = [(131, 44, 26, 0), (189, 65, 36, 0), (73, 23, 16, 0), (146, 46, 32, 0), (234, 71, 3, 1), (174, 63, 30, 0), (58, 21, 10, 0),
+                    (161, 48, 38, 0), (88, 25, 22, 0), (159, 61, 24, 0), (101, 40, 14, 0), (206, 54, 5, 1), (103, 27, 28, 0), (221, 56, 11, 1),
+                    (144, 59, 18, 0), (118, 29, 34, 0), (43, 19, 4, 0), (86, 38, 8, 0), (163, 35, 1, 1), (178, 37, 7, 1), (114, 55, 6, 0),
+                    (71, 36, 2, 0), (142, 72, 4, 0), (170, 89, 2, 0)]
+
+
 def grid(rng):
     g = [Fraction(0), Fraction(14), Fraction(7), Fraction(37, 5)] + PKAS
     g += [Fraction(rng.randint(0, 1400), 100) for _ in range(4)]
@@ -76,6 +84,19 @@ def cases(rng, tier):
     for s in ext:
         lines, meta = block(s, rng)
         yield Case(lines, {"kind": "extreme", "meta": meta, "seq": s})
+    # arginine-dominated chains WITH acidic residues (more / fewer than ~96 R per acid), and compositions a hair's breadth from dominated
+    rdom = []
+    for acid in ("D", "E", "DE", "Y", "C", "DC", "EEY"):
+        for per in (60, 90, 95, 96, 97, 100, 120, 200):
+            rdom.append("R" * (per * len(acid)) + acid)
+    for (r_, k_, h_, d_) in NEAR_R_DOMINATED[:(10 if tier == "quick" else 24)]:
+        l = list("R" * r_ + "K" * k_ + "H" * h_ + "D" * d_ + "G" * rng.randint(0, 5))
+        rng.shuffle(l)
+        rdom.append("".join(l))
+    for s in rdom:
+        if tier == "quick" and len(s) > 330:
+            continue
+        yield Case(["q pi " + s, "q pisound " + s, "q phq %s ncpr 14/1" % s], {"kind": "arginine-dominated-or-nearly"})
     # ONE object, pI asked before / between the pH queries, at the pH values the bisection itself visits (7, 3.5, 10.5, ...):
     # every answer must be the one a fresh object gives (the model is a pure function of the sequence)
     path = ["7/1", "7/2", "21/2", "7/4", "21/4", "35/4", "49/4", "0/1", "14/1"]
